@@ -79,7 +79,9 @@ Verdict(ev) ==
    \cup (IF o.op = "replace" /\ Skeleton(ev.post) # Skeleton(ev.pre) THEN {"markup-moved"} ELSE {})
    \* (a pure deletion has no white space to encode; it may empty an element in front of a space)
    \cup (IF o.op = "replace" /\ o.formatted /\ o.new # <<>> /\ ~FormattedOK(ev.post) THEN {"formatted-not-normal-form"} ELSE {})
-   \cup (IF o.op = "search" /\ \E i \in 1..Len(ev.found) : ev.found[i].text # SubSeq(ev.own, ev.found[i].s + 1, ev.found[i].e)
+   \cup (IF o.op = "search" /\ \E i \in 1..Len(ev.found) :
+                 \/ ev.found[i].s < 0 \/ ev.found[i].e < ev.found[i].s \/ ev.found[i].e > Len(ev.own)      \* a position outside the text
+                 \/ ev.found[i].text # SubSeq(ev.own, ev.found[i].s + 1, ev.found[i].e)
          THEN {"search-position"} ELSE {})
    \cup (IF o.op = "search" /\ ev.linkfree /\ ev.own # Decode(ev.pre) THEN {"own-text"} ELSE {})
    \cup (IF o.op = "search" /\ Has(o, "p") /\ ev.linkfree /\
